@@ -34,6 +34,11 @@ use crate::{
 /// real-world OPEN/BEGIN/ATTACH frames carry single-digit element counts.
 pub const MAX_ARRAY_COUNT: usize = 65_536;
 
+/// Maximum nesting depth of compound values (lists, maps, arrays and described types)
+/// accepted by the deserializer. Deeper input is rejected with an error instead of
+/// exhausting the stack.
+pub const MAX_NESTING_DEPTH: usize = 128;
+
 /// Deserialize an instance of type T from an IO stream
 pub fn from_reader<T: de::DeserializeOwned>(reader: impl std::io::Read) -> Result<T, Error> {
     let reader = IoReader::new(reader);
@@ -57,6 +62,9 @@ pub struct Deserializer<R> {
     enum_type: EnumType,
     struct_encoding: StructEncoding,
     elem_format_code: Option<EncodingCodes>,
+    /// How many more levels of compound values (list, map, array, described type)
+    /// may be entered before the input is rejected as too deeply nested
+    remaining_depth: usize,
 }
 
 impl<'de, R: Read<'de>> Deserializer<R> {
@@ -69,6 +77,20 @@ impl<'de, R: Read<'de>> Deserializer<R> {
             enum_type: Default::default(),
             struct_encoding: StructEncoding::None,
             elem_format_code: None,
+            remaining_depth: MAX_NESTING_DEPTH,
+        }
+    }
+
+    /// Called when the accessor of a compound value is created. Decoding recurses once
+    /// per nesting level, so the depth of untrusted input has to be bounded to keep the
+    /// stack bounded.
+    fn enter_compound(&mut self) -> Result<(), Error> {
+        match self.remaining_depth.checked_sub(1) {
+            Some(depth) => {
+                self.remaining_depth = depth;
+                Ok(())
+            }
+            None => Err(de::Error::custom("Nesting of compound values is too deep")),
         }
     }
 
@@ -894,7 +916,7 @@ where
 
                 // If count is zero, jump to visitor
                 match count {
-                    0 => visitor.visit_seq(ArrayAccess::new(self, len, count)),
+                    0 => visitor.visit_seq(ArrayAccess::new(self, len, count)?),
                     _ => {
                         let format_code = self
                             .read_format_code()
@@ -905,7 +927,7 @@ where
                         let len = len.checked_sub(OFFSET_ARRAY8).ok_or(Error::InvalidLength)?;
                         // let buf = self.reader.read_bytes(len)?;
 
-                        visitor.visit_seq(ArrayAccess::new(self, len, count))
+                        visitor.visit_seq(ArrayAccess::new(self, len, count)?)
                     }
                 }
             }
@@ -925,7 +947,7 @@ where
 
                 // If count is zero, jump to visitor
                 match count {
-                    0 => visitor.visit_seq(ArrayAccess::new(self, len, count)),
+                    0 => visitor.visit_seq(ArrayAccess::new(self, len, count)?),
                     _ => {
                         let format_code = self
                             .read_format_code()
@@ -938,14 +960,14 @@ where
                             .ok_or(Error::InvalidLength)?;
                         // let buf = self.reader.read_bytes(len)?;
 
-                        visitor.visit_seq(ArrayAccess::new(self, len, count))
+                        visitor.visit_seq(ArrayAccess::new(self, len, count)?)
                     }
                 }
             }
             EncodingCodes::List0 => {
                 let len = 0;
                 let count = 0;
-                visitor.visit_seq(ListAccess::new(self, len, count))
+                visitor.visit_seq(ListAccess::new(self, len, count)?)
             }
             EncodingCodes::List8 => {
                 let len = self
@@ -964,7 +986,7 @@ where
 
                 // Make sure there is no other element format code
                 self.elem_format_code = None;
-                visitor.visit_seq(ListAccess::new(self, len, count))
+                visitor.visit_seq(ListAccess::new(self, len, count)?)
             }
             EncodingCodes::List32 => {
                 let len_bytes = self.reader.read_const_bytes()?;
@@ -985,7 +1007,7 @@ where
 
                 // Make sure there is no other element format code
                 self.elem_format_code = None;
-                visitor.visit_seq(ListAccess::new(self, len, count))
+                visitor.visit_seq(ListAccess::new(self, len, count)?)
             }
             _ => Err(Error::InvalidFormatCode),
         }
@@ -1047,7 +1069,7 @@ where
             return Err(Error::SequenceLengthMismatch);
         }
 
-        visitor.visit_seq(ListAccess::new(self, size, count))
+        visitor.visit_seq(ListAccess::new(self, size, count)?)
     }
 
     fn deserialize_map<V>(self, visitor: V) -> Result<V::Value, Self::Error>
@@ -1105,7 +1127,7 @@ where
 
         // // AMQP map count includes both key and value, should be halfed
         // let count = count / 2;
-        visitor.visit_map(MapAccess::new(self, size, count))
+        visitor.visit_map(MapAccess::new(self, size, count)?)
     }
 
     fn deserialize_tuple_struct<V>(
@@ -1119,17 +1141,17 @@ where
     {
         if name == DESCRIBED_BASIC {
             self.struct_encoding = StructEncoding::DescribedBasic;
-            visitor.visit_seq(DescribedAccess::basic(self, len as u32))
+            visitor.visit_seq(DescribedAccess::basic(self, len as u32)?)
         } else if name == DESCRIBED_LIST {
             self.struct_encoding = StructEncoding::DescribedList;
-            visitor.visit_seq(DescribedAccess::list(self))
+            visitor.visit_seq(DescribedAccess::list(self)?)
         } else {
             match self
                 .get_elem_code_or_peek_byte()
                 .ok_or_else(|| Error::unexpected_eof("Expecting format code"))??
                 .try_into()?
             {
-                EncodingCodes::DescribedType => visitor.visit_seq(DescribedAccess::list(self)),
+                EncodingCodes::DescribedType => visitor.visit_seq(DescribedAccess::list(self)?),
                 _ => self.deserialize_tuple(len, visitor),
             }
         }
@@ -1148,13 +1170,13 @@ where
         let cur_encoding = self.struct_encoding.clone();
         let result = if name == DESCRIBED_BASIC {
             self.struct_encoding = StructEncoding::DescribedBasic;
-            visitor.visit_seq(DescribedAccess::basic(self, fields.len() as u32))
+            visitor.visit_seq(DescribedAccess::basic(self, fields.len() as u32)?)
         } else if name == DESCRIBED_LIST {
             self.struct_encoding = StructEncoding::DescribedList;
-            visitor.visit_seq(DescribedAccess::list(self))
+            visitor.visit_seq(DescribedAccess::list(self)?)
         } else if name == DESCRIBED_MAP {
             self.struct_encoding = StructEncoding::DescribedMap;
-            visitor.visit_map(DescribedAccess::map(self))
+            visitor.visit_map(DescribedAccess::map(self)?)
         } else {
             self.struct_encoding = StructEncoding::None;
             match self
@@ -1166,7 +1188,7 @@ where
                     self.deserialize_tuple(fields.len(), visitor)
                 }
                 EncodingCodes::Map32 | EncodingCodes::Map8 => self.deserialize_map(visitor),
-                EncodingCodes::DescribedType => visitor.visit_seq(DescribedAccess::list(self)),
+                EncodingCodes::DescribedType => visitor.visit_seq(DescribedAccess::list(self)?),
                 _ => Err(Error::InvalidFormatCode),
             }
         };
@@ -1371,14 +1393,25 @@ pub struct ArrayAccess<'a, R> {
 }
 
 impl<'a, 'de, R: Read<'de>> ArrayAccess<'a, R> {
-    pub(crate) fn new(de: &'a mut Deserializer<R>, size: usize, count: usize) -> Self {
+    pub(crate) fn new(
+        de: &'a mut Deserializer<R>,
+        size: usize,
+        count: usize,
+    ) -> Result<Self, Error> {
+        de.enter_compound()?;
         let start_pos = de.reader.bytes_consumed();
-        Self {
+        Ok(Self {
             de,
             size,
             count,
             start_pos,
-        }
+        })
+    }
+}
+
+impl<R> Drop for ArrayAccess<'_, R> {
+    fn drop(&mut self) {
+        self.de.remaining_depth += 1;
     }
 }
 
@@ -1434,13 +1467,24 @@ pub struct ListAccess<'a, R> {
     count: usize,
 }
 
-impl<'a, R> ListAccess<'a, R> {
-    pub(crate) fn new(de: &'a mut Deserializer<R>, size: usize, count: usize) -> Self {
-        Self {
+impl<'a, 'de, R: Read<'de>> ListAccess<'a, R> {
+    pub(crate) fn new(
+        de: &'a mut Deserializer<R>,
+        size: usize,
+        count: usize,
+    ) -> Result<Self, Error> {
+        de.enter_compound()?;
+        Ok(Self {
             de,
             _size: size,
             count,
-        }
+        })
+    }
+}
+
+impl<R> Drop for ListAccess<'_, R> {
+    fn drop(&mut self) {
+        self.de.remaining_depth += 1;
     }
 }
 
@@ -1532,13 +1576,24 @@ pub struct MapAccess<'a, R> {
     count: usize,
 }
 
-impl<'a, R> MapAccess<'a, R> {
-    pub(crate) fn new(de: &'a mut Deserializer<R>, size: usize, count: usize) -> Self {
-        Self {
+impl<'a, 'de, R: Read<'de>> MapAccess<'a, R> {
+    pub(crate) fn new(
+        de: &'a mut Deserializer<R>,
+        size: usize,
+        count: usize,
+    ) -> Result<Self, Error> {
+        de.enter_compound()?;
+        Ok(Self {
             de,
             _size: size,
             count,
-        }
+        })
+    }
+}
+
+impl<R> Drop for MapAccess<'_, R> {
+    fn drop(&mut self) {
+        self.de.remaining_depth += 1;
     }
 }
 
@@ -1669,28 +1724,31 @@ pub struct DescribedAccess<'a, R> {
 impl<'a, 'de, R: Read<'de>> DescribedAccess<'a, R> {
     /// There will be at least one descriptor, and the length of the
     /// remaining items will be determined from the bytes
-    pub(crate) fn list(de: &'a mut Deserializer<R>) -> Self {
-        Self {
+    pub(crate) fn list(de: &'a mut Deserializer<R>) -> Result<Self, Error> {
+        de.enter_compound()?;
+        Ok(Self {
             de,
             field_count: 1,
             counter: 0,
-        }
+        })
     }
 
-    pub(crate) fn basic(de: &'a mut Deserializer<R>, field_count: u32) -> Self {
-        Self {
+    pub(crate) fn basic(de: &'a mut Deserializer<R>, field_count: u32) -> Result<Self, Error> {
+        de.enter_compound()?;
+        Ok(Self {
             de,
             field_count,
             counter: 0,
-        }
+        })
     }
 
-    pub(crate) fn map(de: &'a mut Deserializer<R>) -> Self {
-        Self {
+    pub(crate) fn map(de: &'a mut Deserializer<R>) -> Result<Self, Error> {
+        de.enter_compound()?;
+        Ok(Self {
             de,
             field_count: 1,
             counter: 0,
-        }
+        })
     }
 
     pub(crate) fn consume_list_header(&mut self) -> Result<u32, Error> {
@@ -1754,6 +1812,12 @@ impl<'a, 'de, R: Read<'de>> DescribedAccess<'a, R> {
             }
             _ => Err(de::Error::custom("Invalid format code. Expecting a list")),
         }
+    }
+}
+
+impl<R> Drop for DescribedAccess<'_, R> {
+    fn drop(&mut self) {
+        self.de.remaining_depth += 1;
     }
 }
 
